@@ -15,6 +15,8 @@
  *          mode=fixup    case = (year, month 1..24); inner loop over d,H,M,S,ms
  *          mode=epoch    case = day; secs=3|all  stride=N (with secs=all)
  *          mode=dayfrac  case = month boundary; the two all-day instants around it x durations with a sub-day part
+ *          mode=epochseq case = day; epoch_to_echs_instant called for ordered pairs/triples (t1, t2, t1) of unix times
+ *                        in ONE process, every answer judged (a conversion must not depend on the calls before it)
  *
  * Three kinds of instant are told apart: `allday' (H == 0xff), `allsec'
  * (ms == 0x3ff, what the iCalendar parser produces) and `ms' (a millisecond
@@ -111,8 +113,8 @@ istr(echs_instant_t i)
 }
 
 /* violation classes */
-enum {C_DIFF, C_ADD, C_ORDER, C_FIXUP, C_TOEPOCH, C_FROMEPOCH, C_DIFFADD};
-static const char *cname[] = {"diff", "add", "order", "fixup", "to-epoch", "from-epoch", "diff-of-add"};
+enum {C_DIFF, C_ADD, C_ORDER, C_FIXUP, C_TOEPOCH, C_FROMEPOCH, C_DIFFADD, C_EPOCHSEQ};
+static const char *cname[] = {"diff", "add", "order", "fixup", "to-epoch", "from-epoch", "diff-of-add", "from-epoch-seq"};
 
 #define ID(clause, kind, cls, err)	((clause) << 10 | (kind) << 8 | (cls) << 3 | (err))
 #define LIKELY_OK(x)	__builtin_expect(!!(x), 1)
@@ -763,6 +765,110 @@ mode_epoch(void)
 	}
 }
 
+/* ---- mode=epochseq --------------------------------------------------- */
+/* epoch_to_echs_instant() is a pure function of its argument as far as the property goes: "all conversions ...
+ * agree with the calendar" holds for every call, whatever was converted before.  mode=epoch asks day after day in
+ * ascending order, one call per time; here every ORDERED pair (t1, t2) of a set of times is converted back to back
+ * in one process, followed by t1 again, and each of the three answers is judged against the calendar.
+ * Case = day D; t1 in {D 00:00:00 - 1 s, D 00:00:00, D 00:00:01, D 12:00:00};
+ * t2 in {seconds 0, 1, 86399 of the days D-3 .. D+3} + {D +- 365 d, +- 366 d, +- 1461 d at t1's time of day,
+ * 1901-01-01T00:00:00, 2099-12-31T23:59:59, 1969-12-31T23:59:59, 1970-01-01T00:00:00, 2^31 - 1, 2^31}. */
+static int
+seq_judge(int64_t t, echs_instant_t J, echs_instant_t *want)
+{
+	int64_t day = t >= 0 ? t / 86400 : -((-t + 86399) / 86400);
+	int s = (int)(t - day * 86400);
+	struct cv_ymd_s c = cv_civil_from_days(day);
+	echs_instant_t I = mk(c.y, c.m, c.d, s / 3600, s / 60 % 60, s % 60, ECHS_ALL_SEC);
+
+	*want = I;
+	if (J.y != I.y || J.m != I.m || J.d != I.d || J.H != I.H || J.M != I.M || J.S != I.S) {
+		return (J.dpart == I.dpart) ? 1 : (J.H == I.H && J.M == I.M && J.S == I.S) ? 0 : 2;
+	} else if (J.ms != ECHS_ALL_SEC && J.ms != 0U) {
+		return 3;
+	}
+	return -1;
+}
+
+static void
+mode_epochseq(void)
+{
+	static const int s1[] = {-1, 0, 1, 43200};
+	static const int s2[] = {0, 1, 86399};
+	static const int64_t farabs[] = {0 /* Z0 */, 0 /* Z1 end */, -1, 0, (INT64_C(1) << 31) - 1, INT64_C(1) << 31};
+	static const int fard[] = {365, -365, 366, -366, 1461, -1461};
+	const int64_t tmin = Z0 * 86400, tmax = Z1 * 86400 + 86399;
+
+	vd_shape("epochseq");
+	for (long id_ = 0; id_ < NDAYS; id_++) {
+		int64_t day = Z0 + id_;
+		struct cv_ymd_s c;
+
+		if (!vd_next()) continue;
+		c = cv_civil_from_days(day);
+		vd_desc("epoch_to_echs_instant called for t1, t2, t1 in a row (one process): t1 in {00:00:00 - 1 s, 00:00:00, 00:00:01, 12:00:00} of %04d-%02d-%02d, "
+			"t2 in seconds {0, 1, 86399} of the 7 days around it, t1 +- 365/366/1461 days, the ends of 1901-2099, -1, 0, 2^31 - 1, 2^31",
+			c.y, c.m, c.d);
+		n_eval = n_nontriv = 0;
+		for (int i1 = 0; i1 < 4; i1++) {
+			const int64_t t1 = day * 86400 + s1[i1];
+			int64_t part[40];
+			int np = 0;
+
+			if (t1 < tmin || t1 > tmax) continue;
+			for (int dd = 0; dd <= 3; dd++) {
+				for (int sg = 0; sg < (dd ? 2 : 1); sg++) {
+					for (int j = 0; j < 3; j++) {
+						part[np++] = (day + (sg ? -dd : dd)) * 86400 + s2[j];
+					}
+				}
+			}
+			for (int j = 0; j < 6; j++) {
+				part[np++] = t1 + (int64_t)fard[j] * 86400;
+			}
+			part[np++] = tmin;
+			part[np++] = tmax;
+			for (int j = 2; j < 6; j++) {
+				part[np++] = farabs[j];
+			}
+			vd_beat();
+			for (int ip = 0; ip < np; ip++) {
+				const int64_t t2 = part[ip];
+				const int64_t tt[3] = {t1, t2, t1};
+				/* t2's day relative to t1's day */
+				int64_t d1 = t1 >= 0 ? t1 / 86400 : -((-t1 + 86399) / 86400);
+				int64_t d2 = t2 >= 0 ? t2 / 86400 : -((-t2 + 86399) / 86400);
+				const int rel = d2 < d1 ? 0 : d2 == d1 ? 1 : 2;
+				static const char *rn[] = {"t2-on-earlier-day", "t2-on-same-day", "t2-on-later-day"};
+				static const char *pn[] = {"first-call", "second-call", "third-call"};
+				static const char *en[] = {"date-wrong", "time-wrong", "date-and-time-wrong", "ms-field"};
+
+				if (t2 < tmin || t2 > tmax) continue;
+				n_eval++;
+				n_nontriv += t1 != t2;
+				for (int k = 0; k < 3; k++) {
+					echs_instant_t want, J = epoch_to_echs_instant((time_t)tt[k]);
+					int err = seq_judge(tt[k], J, &want);
+					if (LIKELY_OK(err < 0)) continue;
+					{
+						int id = ID(C_EPOCHSEQ, k, rel, err);
+						if (lv_hit(id)) {
+							char sig[120];
+							snprintf(sig, sizeof(sig), "from-epoch-seq/%s/%s/%s", pn[k], rn[rel], en[err]);
+							lv_set(id, sig, "calls in a row: epoch_to_echs_instant(%" PRId64 "), (%" PRId64 "), (%" PRId64 "): call %d gave %s%s, calendar says %s",
+							       t1, t2, t1, k + 1, istr(J), err == 3 ? " with an ms field that is neither 0 nor the all-second marker" : "", istr(want));
+						}
+					}
+				}
+			}
+		}
+		lv_flush();
+		vd_sh->evals += n_eval;
+		vd_sh->nontriv += n_nontriv;
+		vd_sample("epochseq: %04d-%02d-%02d, %ld ordered pairs (t1, t2), each converted as t1, t2, t1 back to back", c.y, c.m, c.d, n_eval);
+	}
+}
+
 static void
 enumerate(void)
 {
@@ -784,6 +890,8 @@ enumerate(void)
 		mode_epoch();
 	} else if (!strcmp(mode, "dayfrac")) {
 		mode_dayfrac();
+	} else if (!strcmp(mode, "epochseq")) {
+		mode_epochseq();
 	} else {
 		fprintf(stderr, "unknown mode %s\n", mode);
 		_exit(3);
